@@ -470,7 +470,7 @@ def r_factory(ctx):
         for p in fa.paths:
             arm = None
             for d in p.decisions():
-                if d.d["how"] == "match" and d.d.get("pat") is not None and d.d["pat"]["k"] == "PathPat" and unmut(d.d["cond"]) == V("param:compression"):
+                if d.d["how"] == "match" and d.d.get("pat") is not None and d.d["pat"]["k"] == "PathPat" and unmut(d.d["cond"]) == role_param(fa, f, "compression"):
                     arm = d.d["pat"].get("def", "").rpartition("::")[2]
                 elif d.d["how"] == "match" and d.d.get("pat") is not None and d.d["pat"]["k"] in ("Wild", "Bind"):
                     arm = "<catch-all>"
@@ -478,7 +478,7 @@ def r_factory(ctx):
                 continue
             seen.setdefault(arm, []).append(p)
         obs.append(Ob("R-FACTORY", fn, "one arm per Compression variant, no catch-all", set(seen) == set(variants), "arms: %s" % sorted(seen), rel(f["loc"])))
-        stream_param = [n for n in fa.param_names if n != "compression"]
+        stream_param = [n for n in fa.param_names if V("param:" + n) != role_param(fa, f, "compression")]
         sp = V("param:" + stream_param[0]) if stream_param else None
         for arm, ps in sorted(seen.items()):
             oks = [p for p in ps if p.exit in ("ok", "tail")]
@@ -544,7 +544,7 @@ def r_oneshot(ctx):
     """R-ONESHOT: compress_all writes everything, flushes with `?`, returns the sink; decompress_all drains with read_to_end"""
     obs = []
     facn = set(f["path"] for f in ctx.codec_factories())
-    users = [f for f in ctx.user_fns() if "Vec<u8>" in f["ret"] and any(c["fn"] in facn for c in calls(f["body"])) and "data" in [p["pat"].get("name") for p in f["params"]]]
+    users = [f for f in ctx.user_fns() if "Vec<u8>" in f["ret"] and any(c["fn"] in facn for c in calls(f["body"])) and any((p["ty"] or "").replace(" ", "") == "&[u8]" for p in f["params"])]
     if len(users) < 2:
         return no_anchor("R-ONESHOT", "one-shot helpers (compress_all / decompress_all)")
     for f in users:
@@ -562,17 +562,17 @@ def r_oneshot(ctx):
             res = v[2][0] if is_call_to(v, lambda s: s == "core::result::Result::Ok") and v[2] else None
             if res is None and p.exit == "tail":
                 res = v      # `fallible_op(..).map(|_| buffer)`: the success payload (Result modelled at payload level)
-            comp_ok = unmut(fac[0].d["args"][0]) == V("param:compression")
+            comp_ok = unmut(fac[0].d["args"][0]) == role_param(fa, f, "compression")
             if "Write" in ctx.fn(fac[0].d["fn"])["ret"]:
                 wr = [e for e in p.events if e.kind == "call" and e.d["fn"].endswith("::write_all") and unmut(e.d["args"][0]) == h]
                 fl = [e for e in p.events if e.kind == "call" and e.d["fn"] in absint.FLUSH_FNS and unmut(e.d["args"][0]) == h]
-                ok = len(wr) == 1 and unmut(wr[0].d["args"][1]) == V("param:data") and len(fl) == 1 and fl[0].seq > wr[0].seq
+                ok = len(wr) == 1 and unmut(wr[0].d["args"][1]) == role_param(fa, f, "bytes") and len(fl) == 1 and fl[0].seq > wr[0].seq
                 obs.append(Ob("R-ONESHOT", fn, "writes all of `data` through the compressor, then flushes", ok and comp_ok, "write_all calls: %d, flush calls: %d" % (len(wr), len(fl)), rel(f["loc"])))
                 sink = unmut(fac[0].d["args"][1])
                 obs.append(Ob("R-ONESHOT", fn, "returns the sink the compressor wrote to", res is not None and res == sink, "returns %s; sink %s" % (tstr(res)[:60], tstr(sink)[:60]), rel(f["loc"])))
             else:
                 rd = [e for e in p.events if e.kind == "call" and e.d["fn"].endswith("::read_to_end") and unmut(e.d["args"][0]) == h]
-                src_ok = any(t == V("param:data") for t in subterms(unmut(fac[0].d["args"][1])))
+                src_ok = any(t == role_param(fa, f, "bytes") for t in subterms(unmut(fac[0].d["args"][1])))
                 ok = len(rd) == 1 and res is not None and unmut(rd[0].d["args"][1]) == res
                 obs.append(Ob("R-ONESHOT", fn, "drains the decompressor over `data` with read_to_end into the returned buffer", ok and src_ok and comp_ok, "read_to_end calls: %d" % len(rd), rel(f["loc"])))
     return obs
